@@ -385,6 +385,33 @@ def d45b():
   return None if np.allclose(x, [1, 0], atol=1e-6) else 'Intersection.project([2, .5]) = %s, the nearest member is (1, 0)' % np.array(x).round(6).tolist()
 
 
+def d46():
+  d = Device('d', 3, (0, 2), [(1, 4, 0, 3)])
+  try:
+    d.cbounds = [(5, 4, 0, 3)]
+  except ValueError:
+    pass
+  return None if d.cbounds == [(1, 4, 0, 3)] else 'a rejected cbounds assignment replaced the accepted value by %s' % (d.cbounds,)
+
+
+def d47():
+  g = PVDevice('g', 2, (-1, 0))
+  try:
+    g.bounds = (0, 1)
+  except ValueError:
+    pass
+  return None if g.bounds.tolist() == [[-1, 0], [-1, 0]] else 'a rejected bounds assignment on a producer was stored: %s' % g.bounds.tolist()
+
+
+def d48():
+  g = GDevice('g', 2, (-1, 0), None, cost_coeffs=[1, 0])
+  try:
+    g.cost_coeffs = [[1, 0]]*3
+  except ValueError:
+    pass
+  return None if list(g.cost_coeffs) == [1, 0] else 'a rejected cost_coeffs assignment was stored: %s' % (g.cost_coeffs,)
+
+
 if __name__ == '__main__':
   names = [a for a in sys.argv[2:]] or sorted(k for k in globals() if k[0] == 'd' and k[1:3].isdigit())
   bad = 0
